@@ -473,6 +473,13 @@ func setValueRules(c *core.Ctx, r *core.Report, rule string) {
 				t.ext["(reflect.Value).Elem"] = func(ip *absint.Interp, a []absint.Value) absint.Value {
 					return absint.NewTok("elem("+absint.Show(a[0])+")", "rvalue")
 				}
+				t.ext["reflect.Indirect"] = func(ip *absint.Interp, a []absint.Value) absint.Value {
+					// Elem() of a pointer, the value itself otherwise: only reflect.New results are pointers here
+					if tok, ok := a[0].(*absint.Tok); ok && strings.HasPrefix(tok.ID, "new(") {
+						return absint.NewTok("elem("+absint.Show(a[0])+")", "rvalue")
+					}
+					return a[0]
+				}
 				t.ext["(reflect.Value).Set"] = func(ip *absint.Interp, a []absint.Value) absint.Value {
 					sets = append(sets, absint.Show(a[0])+"<-"+absint.Show(a[1]))
 					return nil
